@@ -63,7 +63,7 @@ func main() {
 		lists = append(lists, triples[:40]...)
 	}
 	lists = append(lists, []string{"S1"}, []string{"S2"})
-	full := []string{"X1", "X2", "X3", "E1", "E2", "R1", "R2", "R3", "U0", "U1", "U2", "U3"}
+	full := []string{"X1", "X2", "X3", "E1", "E2", "R1", "R2", "R3", "R4", "U0", "U1", "U2", "U3"}
 	for i := 0; i < r.Pick(12, 60); i++ {
 		n := 4 + rng.Intn(5)
 		l := make([]string, n)
